@@ -13,3 +13,99 @@ assert subst(x / (x + y), {T.sym("x").id: y}) == Rat.const(1) / 2
 assert not (x / y == y / x)
 assert mk_fn("max", x, y) == mk_fn("max", y, x)
 print("selftest ok")
+
+# ---- evaluator and zero-count rules on a synthetic package (positive examples that must match on every run) ----------------
+import shutil, tempfile, textwrap
+d = tempfile.mkdtemp(prefix="vself_")
+try:
+    os.makedirs(os.path.join(d, "pyvaporation"))
+    open(os.path.join(d, "pyvaporation", "__init__.py"), "w").write("")
+    open(os.path.join(d, "pyvaporation", "t.py"), "w").write(textwrap.dedent('''
+        import typing
+        import attr
+        import itertools
+
+
+        def t_continue(xs: typing.List[float], flag: bool) -> typing.List[float]:
+            out = []
+            for x in xs:
+                if flag:
+                    out.append(x)
+                    continue
+                out.append(2 * x)
+            return out
+
+
+        def t_break() -> int:
+            r = 0
+            for k in (1, 2, 3):
+                if k == 3:
+                    break
+                r += k
+            else:
+                r = 100
+            return r
+
+
+        def t_walrus(x: float) -> float:
+            if (y := x * 2) > 3:
+                return y
+            return 0.0
+
+
+        def t_state(x0: float, n: int) -> typing.List[float]:
+            xs = []
+            cur = x0
+            for _ in range(n + 1):
+                nxt = cur * 2
+                xs.append(cur)
+                cur = nxt
+            return xs
+
+
+        def t_indexed(x0: float, n: int) -> typing.List[float]:
+            xs = [x0]
+            for i in range(n + 1):
+                xs.append(xs[i] * 2)
+            xs.pop(-1)
+            return xs
+
+
+        def t_switch_off():
+            attr.validators.set_disabled(True)
+
+
+        def t_forever(x: float) -> float:
+            while x > 0:
+                x = x / 2
+            return x
+    '''))
+    os.environ["VERIF_REPO"] = d
+    from sa.repo import Repo
+    from sa.evaluator import analyse
+    from sa.symeval import Config, val_key
+    from sa.poly import key_equiv
+    from sa.values import Num, famify
+    repo = Repo(d)
+    cfg = Config()
+    o = analyse(repo, repo.find_function("t_continue"), cfg)
+    assert len(o) == 2 and all(x.kind == "return" for x in o), o
+    o = analyse(repo, repo.find_function("t_break"), cfg)
+    assert len(o) == 1 and isinstance(o[0].value, Num) and o[0].value.r == Rat.const(3), o
+    o = analyse(repo, repo.find_function("t_walrus"), cfg)
+    assert len(o) == 2
+    a = analyse(repo, repo.find_function("t_state"), cfg)[0].value
+    b = analyse(repo, repo.find_function("t_indexed"), cfg)[0].value
+    assert a.kind == b.kind == "series" and a.popped == b.popped == 1 and key_equiv(val_key(a.init[0]), val_key(b.init[0])) \
+        and key_equiv(val_key(a.per_iter[0]), val_key(b.per_iter[0])), (a, b)
+    from sa.props.c18 import validator_switches
+    assert len(validator_switches(repo)) == 1
+    from sa.props.c10 import counter_bounded
+    import ast as _ast
+    f = repo.find_function("t_forever")
+    w = [n for n in _ast.walk(f.node) if isinstance(n, _ast.While)][0]
+    assert counter_bounded(f, w)[0] is False
+finally:
+    shutil.rmtree(d, ignore_errors=True)
+    os.environ.pop("VERIF_REPO", None)
+print("selftest (evaluator, zero-count rules) ok")
